@@ -1,6 +1,7 @@
 package wmesh
 
 import (
+	"github.com/postalsys/muti-metroo/internal/config"
 	"context"
 	"fmt"
 	. "github.com/postalsys/muti-metroo/internal/verifsim/meshkit"
@@ -649,12 +650,25 @@ func runC06() {
 				nd.Cfg.Exit.Routes = append(nd.Cfg.Exit.Routes, fmt.Sprintf("10.%d.%d.%d/32", 10+j, k/250, k%250))
 			}
 		}
-		if simrt.Chance(1, 2, "domains") {
+		longRoutes := simrt.Chance(1, 4, "long-routes")
+		if longRoutes {
+			// few routes, many bytes: a set that fits the route count of one
+			// announcement several times over but not its byte budget
+			simrt.Probe("c06_long_routes")
+		}
+		if simrt.Chance(1, 2, "domains") || longRoutes {
 			ndm := setSizes[simrt.Choose(len(setSizes)-3, "ndom")]
+			if longRoutes {
+				ndm = []int{70, 90, 120, 200, 254}[simrt.Choose(5, "ndomlong")]
+			}
 			for k := 0; k < ndm; k++ {
 				name := fmt.Sprintf("h%d.n%d.example.com", k, j)
 				if k%11 == 7 { // long names
 					name = fmt.Sprintf("%s.%s", string(make63('a'+byte(k%26))), name)
+				}
+				if longRoutes {
+					name = fmt.Sprintf("h%d.n%d.example.com", k, j)
+					name = fmt.Sprintf("%s.%s.%s.%s", string(make63('a'+byte(k%26))), string(make63('b'+byte(k%20))), string(make63('c'+byte(k%20))[:40]), name)
 				}
 				if k%5 == 1 {
 					name = "*." + name
@@ -664,11 +678,39 @@ func runC06() {
 		}
 		if simrt.Chance(1, 3, "forwards") {
 			nf := setSizes[simrt.Choose(len(setSizes)-3, "nfwd")]
+			if longRoutes {
+				nf = []int{40, 90, 130}[simrt.Choose(3, "nfwdlong")]
+			}
 			for k := 0; k < nf; k++ {
+				key, target := fmt.Sprintf("svc-%d-%d", j, k), fmt.Sprintf("192.0.2.%d:%d", 1+k%200, 8000+k)
+				if longRoutes {
+					key = fmt.Sprintf("svc-%d-%d-%s", j, k, string(make63('k'))+string(make63('l')))
+					target = fmt.Sprintf("%s.%s.internal.example.net:%d", string(make63('t')), string(make63('u')), 8000+k)
+				}
 				nd.Cfg.Forward.Endpoints = append(nd.Cfg.Forward.Endpoints, struct {
 					Key    string `yaml:"key,omitempty"`
 					Target string `yaml:"target,omitempty"`
-				}{Key: fmt.Sprintf("svc-%d-%d", j, k), Target: fmt.Sprintf("192.0.2.%d:%d", 1+k%200, 8000+k)})
+				}{Key: key, Target: target})
+			}
+		}
+		if simrt.Chance(1, 8, "overlong") {
+			// entries too long for their one-byte length fields: either the
+			// configuration is refused, or the neighbours must still decode them
+			simrt.Probe("c06_overlong_entry_configured")
+			over := string(make63('x')) + "." + string(make63('y')) + "." + string(make63('z')) + "." + string(make63('w')) + fmt.Sprintf(".o%d.example.com", j)
+			nDom, nFwd := len(nd.Cfg.Exit.DomainRoutes), len(nd.Cfg.Forward.Endpoints)
+			switch simrt.Choose(3, "overkind") {
+			case 0:
+				nd.Cfg.Exit.DomainRoutes = append(nd.Cfg.Exit.DomainRoutes, over)
+			case 1:
+				nd.Cfg.Forward.Endpoints = append(nd.Cfg.Forward.Endpoints, config.ForwardEndpoint{Key: "k-" + over, Target: "192.0.2.9:80"})
+			case 2:
+				nd.Cfg.Forward.Endpoints = append(nd.Cfg.Forward.Endpoints, config.ForwardEndpoint{Key: fmt.Sprintf("over-%d", j), Target: over + ":8080"})
+			}
+			if err := nd.Cfg.Validate(); err != nil && (strings.Contains(err.Error(), fmt.Sprintf("exit.domain_routes[%d]", nDom)) || strings.Contains(err.Error(), fmt.Sprintf("forward.endpoints[%d]", nFwd))) {
+				simrt.Probe("c06_overlong_entry_refused_by_validation")
+				nd.Cfg.Exit.DomainRoutes = nd.Cfg.Exit.DomainRoutes[:nDom]
+				nd.Cfg.Forward.Endpoints = nd.Cfg.Forward.Endpoints[:nFwd]
 			}
 		}
 		total := len(nd.Cfg.Exit.Routes) + len(nd.Cfg.Exit.DomainRoutes) + len(nd.Cfg.Forward.Endpoints)
@@ -684,16 +726,78 @@ func runC06() {
 	if len(m.Nodes) >= 3 && simrt.Chance(1, 3, "late-joiner") {
 		// one agent joins late and learns every set through full-table replays
 		lateIdx := 1 + simrt.Choose(len(m.Nodes)-1, "late")
+		quiet := simrt.Chance(1, 2, "quiet-replay")
+		if quiet {
+			// periodic announcements far apart: what the late joiner knows shortly
+			// after connecting, it knows from the replays alone
+			for _, nd := range m.Nodes {
+				nd.Cfg.Routing.AdvertiseInterval = 4 * time.Minute
+				nd.Cfg.Routing.RouteTTL = 20 * time.Minute
+			}
+		}
 		for i := range m.Nodes {
 			if i != lateIdx {
 				m.Start(i)
 			}
 		}
 		Settle(m)
+		if quiet {
+			// move away from the others' announcement instants
+			simrt.Sleep(time.Duration(20+simrt.Choose(60, "latephase")) * time.Second)
+		}
+		// what the late joiner's neighbours hold right before it connects
+		held := map[int]map[string]bool{}
+		for i := range m.Nodes {
+			if i == lateIdx || !EdgeSet(m)[[2]int{i, lateIdx}] {
+				continue
+			}
+			for _, r := range m.RoutesAt(i) {
+				if r.Origin == m.Nodes[lateIdx].ID {
+					continue
+				}
+				oi := m.IndexOf(r.Origin)
+				if held[oi] == nil {
+					held[oi] = map[string]bool{}
+				}
+				held[oi][r.Table+"|"+r.Key] = true
+			}
+		}
 		m.Start(lateIdx)
 		simrt.Probe("c06_late_joiner_replay")
 		if !m.WaitConnected(3 * time.Minute) {
 			simrt.Failf("mesh-did-not-connect", "configured peers did not connect without faults", "edges=%v", m.Edges)
+		}
+		if quiet {
+			simrt.Sleep(10 * time.Second)
+			got := map[int]map[string]bool{}
+			for _, r := range m.RoutesAt(lateIdx) {
+				oi := m.IndexOf(r.Origin)
+				if got[oi] == nil {
+					got[oi] = map[string]bool{}
+				}
+				got[oi][r.Table+"|"+r.Key] = true
+			}
+			for oi := range m.Nodes {
+				if oi == lateIdx || len(held[oi]) == 0 {
+					continue
+				}
+				simrt.Probe("c06_replay_compared")
+				if len(held[oi]) > 255 {
+					simrt.Probe("c06_replay_of_split_set_compared")
+				}
+				missing, first := 0, ""
+				for _, k := range SortedKeys(held[oi]) {
+					if !got[oi][k] {
+						missing++
+						if first == "" {
+							first = k
+						}
+					}
+				}
+				if missing > 0 {
+					simrt.Failf("route-set-truncated-by-replay", "new peer did not learn from the full-table replay the complete set its neighbours held", "%s joined late and holds %d of the %d routes of %s that its neighbours held when it connected (first missing %s)", m.Nodes[lateIdx].Name, len(held[oi])-missing, len(held[oi]), m.Nodes[oi].Name, first)
+				}
+			}
 		}
 		Settle(m)
 	} else {
